@@ -124,11 +124,16 @@ class Cylinder(SampleShape):
 
 
 def _cylinder_quadrature_from_product(disk_quadrature, line_quadrature):
+    # The tabulated disk weights are rounded to 8 digits.
+    # Normalize them to the area of the unit disk so that the weights of the
+    # product rule sum to the volume (as is done for the Chebyshev line weights).
+    disk_weights = np.asarray(disk_quadrature['weights'], dtype=float)
+    disk_weights = disk_weights * (np.pi / disk_weights.sum())
     return dict(  # noqa: C408
         weights=np.array(
             [
                 disk_w * line_w
-                for disk_w in disk_quadrature['weights']
+                for disk_w in disk_weights
                 for line_w in line_quadrature['weights']
             ]
         ),
